@@ -4,7 +4,7 @@
 From Coq Require Import List NArith Bool Arith Sorted.
 From Coq Require Import Strings.Byte.
 Require Import BS.Bytes BS.Common BS.Api BS.Layout BS.Format BS.FormatFacts BS.Spec BS.SpecStep.
-Require Import BS.FS BS.FSFacts BS.Meta BS.MetaFacts BS.Header BS.Reader BS.ReaderFacts BS.Index BS.Data BS.DataFacts BS.Seek BS.Series BS.SeriesFacts BS.ReadAllFacts BS.TotalFacts.
+Require Import BS.FS BS.FSFacts BS.Meta BS.MetaFacts BS.Header BS.Reader BS.ReaderFacts BS.Index BS.Data BS.DataFacts BS.Seek BS.Series BS.SeriesFacts BS.ReadAllFacts BS.TotalFacts BS.CacheFacts BS.LevelFacts.
 Import ListNotations.
 
 
@@ -36,5 +36,12 @@ Print Assumptions C19_push.
 Theorem C19_len : forall fs sr p hdr ihdr l, RepH fs sr p hdr ihdr l -> exists k, data_len_lines (s_data sr) = Ok k.
 Proof. exact len_returns. Qed.
 Print Assumptions C19_len.
-(* partial: series with caches (RepH demands s_down = []), builder calls other than create (open, reopen), and the
-   state after a failed call are not covered by these theorems; there the judge and the correspondence decide. *)
+(* series WITH cache levels (invariant RepS, props/C08.v; bucket sizes configured in ascending order): read_n for every n
+   (0 included) and every pair of bounds - the level loop's unreachable!() arm is never reached (props/C11.v) *)
+Theorem C19_read_n_with_caches : forall p fs s hdr ihdr l cs n lo hi,
+  RepS fs s p hdr ihdr l cs -> StronglySorted le (map fst cs) -> returns (read_n s n lo hi fs).
+Proof. exact read_n_returns_levels. Qed.
+Print Assumptions C19_read_n_with_caches.
+(* partial: with caches only read_n and the accepted push (props/C08.v) are covered; builder calls other than create
+   (open, reopen: props/C04.v, C05.v, C09.v for the states they cover), and the state after a failed call are not
+   covered by these theorems; there the judge and the correspondence decide. *)
